@@ -7,7 +7,22 @@ Fraction): a float literal denotes its decimal value (assumption A1).
 from fractions import Fraction
 import z3
 
-_ENGINE = [None]  # current engine (engine.Run); set by engine.py
+_ENGINE = [None]
+_SERIAL = [0]
+
+
+def next_serial():
+    _SERIAL[0] += 1
+    return _SERIAL[0]
+
+
+def note_mutation(obj):
+    """In-place modification of a container (array store, list append, dict insert): recorded while the generic
+    iteration of a loop under contract runs, so that the loop's frame can be checked (engine.LoopCtl.step)."""
+    e = _ENGINE[0]
+    log = getattr(e, "mut_log", None) if e is not None else None
+    if log is not None:
+        log.append(obj)  # current engine (engine.Run); set by engine.py
 
 
 def engine():
